@@ -1,0 +1,188 @@
+//go:build verif
+
+package aescbcaead
+
+// Contracts for govc (contract-based deductive verification; see /verif/DESIGN.md).
+// This file holds only comments and is compiled only with -tags verif.
+
+//@ type aesCBCAEAD
+//@   invariant [s.sizes] (self.encKeySize == 16 || self.encKeySize == 24 || self.encKeySize == 32) && self.macKeySize >= 0
+//@   invariant [s.tag] 0 <= self.tagSize && self.tagSize <= hashfnsize(self.macAlg) && self.tagSize <= 64
+//@   invariant [s.keylen] len(self.key) == self.encKeySize + self.macKeySize
+//@   invariant [C03.cbchmac.mackey] self.macKey == self.key[0:self.macKeySize]
+//@   invariant [C03.cbchmac.enckey] self.encKey == self.key[len(self.key)-self.encKeySize:len(self.key)]
+
+//@ func (*aesCBCAEAD).Overhead
+//@   tags C03 C07
+//@   requires aead != nil
+//@   modifies nothing
+//@   ensures result == aead.tagSize
+
+//@ func (*aesCBCAEAD).NonceSize
+//@   tags C03 C07
+//@   modifies nothing
+//@   ensures result == 16
+
+//@ func (aesCBCAEAD).hmacTag
+//@   tags C03 C07 C17
+//@   requires h != nil && 0 <= l && l <= h.hsize && 0 <= h.wpos
+//@   modifies h.wlog, h.wpos
+//@   ensures fresh(result) && len(result) == l
+//@   ensures [C03.cbchmac.absorb.len] h.wpos == old(h.wpos) + len(additionalData) + len(nonce) + len(ciphertext) + 8
+//@   ensures [C03.cbchmac.absorb.keep] forall k :: 0 <= k && k < old(h.wpos) ==> h.wlog[k] == old(h.wlog[k])
+//@   ensures [C03.cbchmac.absorb.ad] forall k :: 0 <= k && k < len(additionalData) ==> h.wlog[old(h.wpos) + k] == additionalData[k]
+//@   ensures [C03.cbchmac.absorb.iv] forall k :: 0 <= k && k < len(nonce) ==> h.wlog[old(h.wpos) + len(additionalData) + k] == nonce[k]
+//@   ensures [C03.cbchmac.absorb.ct] forall k :: 0 <= k && k < len(ciphertext) ==> h.wlog[old(h.wpos) + len(additionalData) + len(nonce) + k] == ciphertext[k]
+//@   ensures [C03.cbchmac.absorb.al] (forall k :: 0 <= k && k < 8 ==> (0 <= h.wlog[old(h.wpos) + len(additionalData) + len(nonce) + len(ciphertext) + k] && h.wlog[old(h.wpos) + len(additionalData) + len(nonce) + len(ciphertext) + k] < 256))
+//@        && 72057594037927936 * h.wlog[old(h.wpos) + len(additionalData) + len(nonce) + len(ciphertext) + 0] + 281474976710656 * h.wlog[old(h.wpos) + len(additionalData) + len(nonce) + len(ciphertext) + 1] + 1099511627776 * h.wlog[old(h.wpos) + len(additionalData) + len(nonce) + len(ciphertext) + 2]
+//@         + 4294967296 * h.wlog[old(h.wpos) + len(additionalData) + len(nonce) + len(ciphertext) + 3] + 16777216 * h.wlog[old(h.wpos) + len(additionalData) + len(nonce) + len(ciphertext) + 4] + 65536 * h.wlog[old(h.wpos) + len(additionalData) + len(nonce) + len(ciphertext) + 5]
+//@         + 256 * h.wlog[old(h.wpos) + len(additionalData) + len(nonce) + len(ciphertext) + 6] + h.wlog[old(h.wpos) + len(additionalData) + len(nonce) + len(ciphertext) + 7] == 8 * len(additionalData)
+//@   ensures [C03.cbchmac.truncate] forall k :: 0 <= k && k < l ==> result[k] == digestbyte(h.hkey, h.hkeylen, h.wlog, h.wpos, k)
+
+//@ func NewAESCBCAEAD
+//@   tags C03 C07 C17
+//@   requires (p.encKeySize == 16 || p.encKeySize == 24 || p.encKeySize == 32) && 0 <= p.macKeySize && p.macKeySize <= 64
+//@   requires 0 <= p.tagSize && p.tagSize <= hashfnsize(p.macAlg) && p.tagSize <= 64
+//@   modifies nothing
+//@   ensures [C03.cbchmac.keysize] len(p.key) != p.encKeySize + p.macKeySize ==> (result == nil && result1 != nil)
+//@   ensures [C03.cbchmac.new] len(p.key) == p.encKeySize + p.macKeySize ==> (result1 == nil && typeis(result, "*github.com/dapr/kit/crypto/aescbcaead.aesCBCAEAD") && fresh(result))
+//@   ensures [C03.cbchmac.split] result1 == nil ==> (deref(result, "github.com/dapr/kit/crypto/aescbcaead.aesCBCAEAD").macKey == p.key[0:p.macKeySize]
+//@        && deref(result, "github.com/dapr/kit/crypto/aescbcaead.aesCBCAEAD").encKey == p.key[len(p.key)-p.encKeySize:len(p.key)])
+//@   ensures [C03.cbchmac.inv] result1 == nil ==> inv(deref(result, "github.com/dapr/kit/crypto/aescbcaead.aesCBCAEAD"))
+//@   ensures [C03.cbchmac.params] result1 == nil ==> (deref(result, "github.com/dapr/kit/crypto/aescbcaead.aesCBCAEAD").tagSize == p.tagSize
+//@        && deref(result, "github.com/dapr/kit/crypto/aescbcaead.aesCBCAEAD").macAlg == p.macAlg
+//@        && deref(result, "github.com/dapr/kit/crypto/aescbcaead.aesCBCAEAD").key == p.key)
+//@   ensures [C03.cbchmac.aead] result1 == nil ==> (result.overhead == p.tagSize && result.noncesize == 16)
+//@   at return ghost result.overhead = p.tagSize
+//@   at return ghost result.noncesize = 16
+
+//@ func NewAESCBC128SHA256
+//@   tags C03 C07 C17
+//@   modifies nothing
+//@   ensures [C03.cbchmac.128.keysize] len(key) == 32 <==> result1 == nil
+//@   ensures [C03.cbchmac.128.noaead] result1 != nil ==> result == nil
+//@   ensures [C03.cbchmac.128.aead] result1 == nil ==> (result != nil && result.overhead == 16 && result.noncesize == 16)
+//@   ensures [C03.cbchmac.128.split] result1 == nil ==> (typeis(result, "*github.com/dapr/kit/crypto/aescbcaead.aesCBCAEAD") && fresh(result)
+//@        && inv(deref(result, "github.com/dapr/kit/crypto/aescbcaead.aesCBCAEAD"))
+//@        && deref(result, "github.com/dapr/kit/crypto/aescbcaead.aesCBCAEAD").macKey == key[0:16]
+//@        && deref(result, "github.com/dapr/kit/crypto/aescbcaead.aesCBCAEAD").encKey == key[16:32]
+//@        && deref(result, "github.com/dapr/kit/crypto/aescbcaead.aesCBCAEAD").tagSize == 16)
+//@   at before call NewAESCBCAEAD assume hashfnsize(arg0.macAlg) == 32   // stdlib fact: crypto.SHA256.New digests are 32 bytes
+
+//@ func NewAESCBC192SHA384
+//@   tags C03 C07 C17
+//@   modifies nothing
+//@   ensures [C03.cbchmac.192.keysize] len(key) == 48 <==> result1 == nil
+//@   ensures [C03.cbchmac.192.noaead] result1 != nil ==> result == nil
+//@   ensures [C03.cbchmac.192.aead] result1 == nil ==> (result != nil && result.overhead == 24 && result.noncesize == 16)
+//@   ensures [C03.cbchmac.192.split] result1 == nil ==> (typeis(result, "*github.com/dapr/kit/crypto/aescbcaead.aesCBCAEAD") && fresh(result)
+//@        && inv(deref(result, "github.com/dapr/kit/crypto/aescbcaead.aesCBCAEAD"))
+//@        && deref(result, "github.com/dapr/kit/crypto/aescbcaead.aesCBCAEAD").macKey == key[0:24]
+//@        && deref(result, "github.com/dapr/kit/crypto/aescbcaead.aesCBCAEAD").encKey == key[24:48]
+//@        && deref(result, "github.com/dapr/kit/crypto/aescbcaead.aesCBCAEAD").tagSize == 24)
+//@   at before call NewAESCBCAEAD assume hashfnsize(arg0.macAlg) == 48   // stdlib fact: crypto.SHA384.New digests are 48 bytes
+
+//@ func NewAESCBC256SHA384
+//@   tags C03 C07 C17
+//@   modifies nothing
+//@   ensures [C03.cbchmac.256s384.keysize] len(key) == 56 <==> result1 == nil
+//@   ensures [C03.cbchmac.256s384.noaead] result1 != nil ==> result == nil
+//@   ensures [C03.cbchmac.256s384.aead] result1 == nil ==> (result != nil && result.overhead == 24 && result.noncesize == 16)
+//@   ensures [C03.cbchmac.256s384.split] result1 == nil ==> (typeis(result, "*github.com/dapr/kit/crypto/aescbcaead.aesCBCAEAD") && fresh(result)
+//@        && inv(deref(result, "github.com/dapr/kit/crypto/aescbcaead.aesCBCAEAD"))
+//@        && deref(result, "github.com/dapr/kit/crypto/aescbcaead.aesCBCAEAD").macKey == key[0:24]
+//@        && deref(result, "github.com/dapr/kit/crypto/aescbcaead.aesCBCAEAD").encKey == key[24:56]
+//@        && deref(result, "github.com/dapr/kit/crypto/aescbcaead.aesCBCAEAD").tagSize == 24)
+//@   at before call NewAESCBCAEAD assume hashfnsize(arg0.macAlg) == 48   // stdlib fact: crypto.SHA384.New digests are 48 bytes
+
+//@ func NewAESCBC256SHA512
+//@   tags C03 C07 C17
+//@   modifies nothing
+//@   ensures [C03.cbchmac.256.keysize] len(key) == 64 <==> result1 == nil
+//@   ensures [C03.cbchmac.256.noaead] result1 != nil ==> result == nil
+//@   ensures [C03.cbchmac.256.aead] result1 == nil ==> (result != nil && result.overhead == 32 && result.noncesize == 16)
+//@   ensures [C03.cbchmac.256.split] result1 == nil ==> (typeis(result, "*github.com/dapr/kit/crypto/aescbcaead.aesCBCAEAD") && fresh(result)
+//@        && inv(deref(result, "github.com/dapr/kit/crypto/aescbcaead.aesCBCAEAD"))
+//@        && deref(result, "github.com/dapr/kit/crypto/aescbcaead.aesCBCAEAD").macKey == key[0:32]
+//@        && deref(result, "github.com/dapr/kit/crypto/aescbcaead.aesCBCAEAD").encKey == key[32:64]
+//@        && deref(result, "github.com/dapr/kit/crypto/aescbcaead.aesCBCAEAD").tagSize == 32)
+//@   at before call NewAESCBCAEAD assume hashfnsize(arg0.macAlg) == 64   // stdlib fact: crypto.SHA512.New digests are 64 bytes
+
+//@ func (*aesCBCAEAD).Seal
+//@   tags C03 C07 C17
+//@   ghost padded slice
+//@   ghost blk iface
+//@   ghost mode iface
+//@   ghost hh iface
+//@   ghost cbcdst slice
+//@   ghost padb bytes
+//@   requires aead != nil && inv(aead)
+//@   modifies dst[len(dst):cap(dst)]
+//@   panics when len(nonce) != 16
+//@   ensures [C03.cbchmac.seal.len] len(result) == len(dst) + (len(plaintext) + 16 - len(plaintext) % 16) + aead.tagSize
+//@   ensures [C03.cbchmac.seal.dst] cap(dst) >= len(result) ? result == dst[0:len(result)] : fresh(result)
+//@   ensures [C03.cbchmac.seal.prefix] forall k :: 0 <= k && k < len(dst) ==> result[k] == old(dst[k])
+//@   ensures [C03.cbchmac.seal.pad] len(padded) == len(plaintext) + 16 - len(plaintext) % 16 && cbcdst == result[len(dst):len(dst)+len(padded)]
+//@   ensures [C03.cbchmac.seal.padbytes] (forall k :: 0 <= k && k < len(plaintext) ==> old(plaintext[k]) == padb[k])
+//@        && (forall k :: len(plaintext) <= k && k < len(padded) ==> padb[k] == 16 - len(plaintext) % 16)
+//@   ensures [C03.cbchmac.seal.mackey] fresh(hh) && hh.hkeylen == len(aead.macKey)
+//@        && (aead.macKey.base != result.base ==> (forall k :: 0 <= k && k < len(aead.macKey) ==> aead.macKey[k] == hh.hkey[k]))
+//@   ensures [C03.cbchmac.seal.maclen] hh.wpos == len(additionalData) + 16 + len(padded) + 8
+//@   ensures [C03.cbchmac.seal.mac.ct] forall k :: 0 <= k && k < len(padded) ==> hh.wlog[len(additionalData) + 16 + k] == result[len(dst) + k]
+//@   ensures [C03.cbchmac.seal.mac.ad] (additionalData.base != result.base) ==> (forall k :: 0 <= k && k < len(additionalData) ==> hh.wlog[k] == additionalData[k])
+//@   ensures [C03.cbchmac.seal.mac.iv] (nonce.base != result.base) ==> (forall k :: 0 <= k && k < 16 ==> hh.wlog[len(additionalData) + k] == nonce[k])
+//@   ensures [C03.cbchmac.seal.tag] forall k :: 0 <= k && k < aead.tagSize ==> result[len(dst) + len(padded) + k] == digestbyte(hh.hkey, hh.hkeylen, hh.wlog, hh.wpos, k)
+//@   at call PadPKCS7#0 ghost padded = res0
+//@   at call PadPKCS7#0 ghost padb = lambda j :: res0[j]
+//@   at call NewCipher#0 ghost blk = res0
+//@   at call NewCBCEncrypter#0 ghost mode = res0
+//@   at call New#0 ghost hh = res0
+//@   at before call CryptBlocks#0 ghost cbcdst = arg1
+//@   at before call NewCipher#0 assert [C03.cbchmac.seal.enckey] arg0 == aead.encKey
+//@   at before call NewCBCEncrypter#0 assert [C03.cbchmac.seal.iv] arg0 == blk && arg1 == nonce
+//@   at before call CryptBlocks#0 assert [C03.cbchmac.seal.cbc] arg0 == mode && arg2 == padded
+
+// Open: hh is the keyed hash built for this call, exp the expected (truncated) tag it produced. The tag comparison
+// precedes the first write to dst and every call into AES/CBC/unpadding (at-asserts C03.cbchmac.open.tagfirst.*).
+// The two nopanic obligations on NewCBCDecrypter / CryptBlocks fail on the unchanged code: genuine defect (C07).
+// C03.cbchmac.open.oneblock fails on the unchanged code: an authenticated EMPTY CBC body (which Seal never produces)
+// is accepted as an empty plaintext because UnpadPKCS7 accepts the empty buffer (low severity, needs the key).
+//@ func (*aesCBCAEAD).Open
+//@   tags C03 C07 C17
+//@   ghost hh iface
+//@   ghost exp bytes
+//@   ghost explen int
+//@   requires aead != nil && inv(aead)
+//@   modifies dst[len(dst):cap(dst)]
+//@   ensures [C03.cbchmac.open.noplain] result1 != nil ==> result == nil
+//@   ensures [C03.cbchmac.open.short] len(ciphertext) < aead.tagSize ==> result1 != nil
+//@   ensures [C03.cbchmac.open.reject] (len(ciphertext) >= aead.tagSize
+//@        && !(forall k :: 0 <= k && k < aead.tagSize ==> old(ciphertext[len(ciphertext) - aead.tagSize + k]) == exp[k])) ==> (result1 != nil && result == nil)
+//@   ensures [C03.cbchmac.open.mackey] len(ciphertext) >= aead.tagSize ==> (fresh(hh) && hh.hkeylen == len(aead.macKey)
+//@        && (forall k :: 0 <= k && k < len(aead.macKey) ==> old(aead.macKey[k]) == hh.hkey[k]))
+//@   ensures [C03.cbchmac.open.maclen] len(ciphertext) >= aead.tagSize ==> hh.wpos == len(additionalData) + len(nonce) + (len(ciphertext) - aead.tagSize) + 8
+//@   ensures [C03.cbchmac.open.mac.ad] len(ciphertext) >= aead.tagSize ==> (forall k :: 0 <= k && k < len(additionalData) ==> old(additionalData[k]) == hh.wlog[k])
+//@   ensures [C03.cbchmac.open.mac.iv] len(ciphertext) >= aead.tagSize ==> (forall k :: 0 <= k && k < len(nonce) ==> old(nonce[k]) == hh.wlog[len(additionalData) + k])
+//@   ensures [C03.cbchmac.open.mac.ct] len(ciphertext) >= aead.tagSize ==> (forall k :: 0 <= k && k < len(ciphertext) - aead.tagSize ==> old(ciphertext[k]) == hh.wlog[len(additionalData) + len(nonce) + k])
+//@   ensures [C03.cbchmac.open.mac.tag] len(ciphertext) >= aead.tagSize ==> (explen == aead.tagSize
+//@        && (forall k :: 0 <= k && k < aead.tagSize ==> exp[k] == digestbyte(hh.hkey, hh.hkeylen, hh.wlog, hh.wpos, k)))
+//@   ensures [C03.cbchmac.open.accept] result1 == nil ==> (forall k :: 0 <= k && k < aead.tagSize ==> old(ciphertext[len(ciphertext) - aead.tagSize + k]) == exp[k])
+//@   ensures [C03.cbchmac.open.len] result1 == nil ==> (len(dst) <= len(result) && len(result) <= len(dst) + len(ciphertext) - aead.tagSize)
+//@   ensures [C03.cbchmac.open.oneblock] result1 == nil ==> len(ciphertext) >= aead.tagSize + 16   // a sealed message holds at least one CBC block (PKCS#7 always pads)
+//@   ensures [C03.cbchmac.open.padded] result1 == nil ==> len(result) < len(dst) + len(ciphertext) - aead.tagSize   // at least one PKCS#7 byte was removed (RFC 7518 §5.2.2.2 step 4)
+//@   ensures [C03.cbchmac.open.dst] result1 == nil ==> (cap(dst) >= len(dst) + len(ciphertext) - aead.tagSize ? result == dst[0:len(result)] : fresh(result))
+//@   ensures [C03.cbchmac.open.prefix] result1 == nil ==> (forall k :: 0 <= k && k < len(dst) ==> result[k] == old(dst[k]))
+//@   at call New#1 ghost hh = res0
+//@   at call hmacTag#0 ghost exp = lambda j :: res0[j]
+//@   at call hmacTag#0 ghost explen = len(res0)
+//@   at before call NewCipher#0 assert [C03.cbchmac.open.tagfirst.aes] len(ciphertextTag) == aead.tagSize && (forall k :: 0 <= k && k < aead.tagSize ==> ciphertextTag[k] == exp[k])
+//@   at before call CryptBlocks#0 assert [C03.cbchmac.open.tagfirst.cbc] len(ciphertextTag) == aead.tagSize && (forall k :: 0 <= k && k < aead.tagSize ==> ciphertextTag[k] == exp[k])
+//@   at before call NewCipher#0 assert [C03.cbchmac.open.enckey] arg0 == aead.encKey
+//@   replay template aescbcopen
+//@   replay val ctlen = len(ciphertext)
+//@   replay val noncelen = len(nonce)
+//@   replay val tagsize = aead.tagSize
+//@   replay val enckey = aead.encKeySize
+//@   replay val mackey = aead.macKeySize
+//@   replay val dstlen = len(dst)
+//@   replay val dstcap = cap(dst)
